@@ -51,6 +51,7 @@ func runC05(c *Ctx) {
 		if env, err := tbSetup(c); err != nil {
 			r.note("tier B unavailable: %v", err)
 		} else {
+			c05MrjobSignalWhileRecording(c, env)
 			tbC05(c, env, n)
 		}
 	}()
